@@ -12,7 +12,7 @@ TECHNIQUE = ("bounded-exhaustive enumeration of host operator trees x launch pla
              "(time-shifted) trace vs attributes recomputed from the reference tree")
 RULE = ("single-thread family: every positive-duration laminar family of <=N host ops x every placement of <=K launch "
         "calls (inside any op or at top level) x per launch {kernel on stream 7|9 with duration 0|3, no device "
-        "activity} x optional unlinked kernel x host thread id in {100, and for small families 1, 2, 3}; two-thread family: main thread with 0..2 profiler steps and 0..2 "
+        "activity} x optional unlinked kernel x event ids beyond 127 with the graph built twice on one trace x host thread id in {100, and for small families 1, 2, 3}; two-thread family: main thread with 0..2 profiler steps and 0..2 "
         "'## backward ##' annotations x autograd-thread top-level ops placed inside / straddling / outside each "
         "annotation x {one autograd thread, two autograd threads, no step thread}, each also as rank 1 of a two-rank job with the call graph built over all ranks; epoch offset 1.7e15 so shifted "
         "and unshifted times differ. non-trivial = some host event has device descendants below a child, or a "
@@ -51,6 +51,11 @@ def worlds(tier: str, stats: Dict[str, Any]) -> Iterator[Any]:
                             stats["transitions"] += 1
                             yield dict(mode="tree", fam=[list(x) for x in fam], launches=[[p, list(d)] for p, d in zip(pl, devs)],
                                        orphan=orphan)
+                            if k >= 1 and not orphan and n <= 2:
+                                # event ids beyond 127 (metadata entries first) and the call graph built twice on the same trace
+                                stats["transitions"] += 1
+                                yield dict(mode="tree", fam=[list(x) for x in fam], launches=[[p, list(d)] for p, d in zip(pl, devs)],
+                                           orphan=False, pad=140)
                             if k >= 1 and not orphan:
                                 stats["transitions"] += 1
                                 yield dict(mode="tree", fam=[list(x) for x in fam], launches=[[p, list(d)] for p, d in zip(pl, devs)],
@@ -108,6 +113,8 @@ def build_tree_world(w) -> List[Dict[str, Any]]:
         evs.append(kineto.kernel("kern_orphan", E0 + 1, 2, 9, 99))
     if w.get("file_order") == "reversed":
         evs = evs[:1] + evs[1:][::-1]
+    if w.get("pad"):
+        evs = evs[:1] + [kineto.meta_event(E0 + k) for k in range(w["pad"])] + evs[1:]
     return evs
 
 
@@ -151,6 +158,11 @@ def check(world) -> Dict[str, Any]:
     cg = CallGraph(ta.t, ranks=[0])
     res = verify_rank(cg, 0, evs, evs, world["mode"], world, viol)
     execs = 1
+    if world.get("pad") or world["mode"] == "bwd":
+        # a second call graph on the same Trace object (every kernel-sequence / counter analysis builds one)
+        cg_b = CallGraph(ta.t, ranks=[0])
+        verify_rank(cg_b, 0, evs, evs, world["mode"] + "/second-build-on-same-trace", world, viol)
+        execs += 1
     if world["mode"] == "bwd":
         # the same trace as rank 1 of a two-rank job, call graph built over all ranks
         evs0 = build_bwd_world(RANK0_FIXED)
@@ -197,21 +209,25 @@ def verify_rank(cg, rank: int, evs, all_evs, tag: str, world, viol: List[Any]) -
                 viol.append((f"{tag}/{c}-wrong/{kind}", dict(ctx, id=i, name=ref["by"][i]["name"], got=float(g[c]), expected=want[c])))
     # get_stack_of_node: node + descendants + ancestors
     for i, e in (ref["info"].items() if rank == 0 else []):
-        if i in ref["device"]:
-            continue
-        try:
-            st = cg.get_stack_of_node(i)
-            got = sorted(int(x) for x in st.index)
-        except Exception as ex:
-            viol.append((f"{tag}/get_stack_of_node-crash/{type(ex).__name__}", dict(ctx, id=i, error=repr(ex)[:200])))
-            continue
         anc, p = [], e["parent"]
         while p is not None:
             anc.append(p)
             p = ref["info"][p]["parent"]
-        want_ids = sorted(set([i] + anc + ref["descendants"](i)))
-        if got != want_ids:
-            viol.append((f"{tag}/get_stack_of_node-wrong-members", dict(ctx, id=i, got=got, expected=want_ids)))
+        desc = ref["descendants"](i) if i not in ref["device"] else []
+        for skip in (False, True):
+            try:
+                st = cg.get_stack_of_node(i, skip_ancestors=skip)
+                got = sorted(int(x) for x in st.index)
+            except Exception as ex:
+                viol.append((f"{tag}/get_stack_of_node-crash/{type(ex).__name__}", dict(ctx, id=i, skip_ancestors=skip, error=repr(ex)[:200])))
+                continue
+            if i in ref["device"]:
+                want_ids = sorted({i}) if skip else sorted(set([i] + anc))
+            else:
+                want_ids = sorted(set([i] + desc)) if skip else sorted(set([i] + anc + desc))
+            if got != want_ids:
+                kind = "device" if i in ref["device"] else "host"
+                viol.append((f"{tag}/get_stack_of_node-wrong-members/{kind}/skip_ancestors={skip}", dict(ctx, id=i, got=got, expected=want_ids)))
     deep = any(e["num_kernels"] > 0 and not any(c in ref["device"] for c in ref["children"].get(i, [])) for i, e in ref["info"].items()
                if i not in ref["device"])
     nontrivial = deep or bool(ref["relinked"])
